@@ -41,3 +41,38 @@ Definition join_params_ok (typ : creation) (expected got : params) : bool :=
   (pr_version got =? pr_version expected) && (pr_suite got =? pr_suite expected)
   && (match typ with Reinit => pr_gid got =? pr_gid expected | Branch => true end)
   && (pr_ext got =? pr_ext expected) && (pr_epoch got =? 1).
+
+(* is_reinit, for the translated membership rule *)
+Definition is_reinit (typ : creation) : bool := match typ with Reinit => true | Branch => false end.
+
+(* ---- the resumption PSK of the old group on the joiner's side (Group::psk_secret) ----
+   The joiner of a successor / branch group holds the old group's resumption secret under ITS OWN
+   id (usage, old group id, old epoch: Group::resumption_psk_input).  The Welcome lists PSK ids;
+   the joiner takes only the nonce of the first one. *)
+Inductive usage := UApplication | UReinit | UBranch.
+Inductive jpskid := JExternal (id : N) | JResumption (u : usage) (gid epoch : N).
+Record wpsk := { w_id : jpskid; w_nonce : N }.
+Inductive jres :=
+  | JUnexpected                               (* MlsError::UnexpectedPskId *)
+  | JInject (id : jpskid) (nonce : N)         (* PSK chain over exactly one input: this id, this nonce, the old group's secret *)
+  | JResolve.                                 (* no injected PSK: the ordinary resolver *)
+Definition usage_eqb (a b : usage) : bool :=
+  match a, b with UApplication, UApplication | UReinit, UReinit | UBranch, UBranch => true | _, _ => false end.
+
+Definition expected_id (typ : creation) (old_gid old_epoch : N) : jpskid :=
+  JResumption (match typ with Reinit => UReinit | Branch => UBranch end) old_gid old_epoch.
+
+Definition joiner_psk (psks : list wpsk) (additional : option jpskid) : jres :=
+  match additional with
+  | None => JResolve
+  | Some mine =>
+      match psks with
+      | [] => JUnexpected
+      | first :: _ =>
+          match w_id first with
+          | JResumption UApplication _ _ => JUnexpected
+          | JResumption _ _ _ => JInject mine (w_nonce first)
+          | JExternal _ => JUnexpected
+          end
+      end
+  end.
